@@ -238,6 +238,16 @@ func VerifyFunc(P *Program, fn *ssa.Function, c *Contract, cf *ContractFile, ins
 			if !used {
 				continue
 			}
+			// an axiom stated over mathematical integers is not carried into a function verified over bit-vectors (and vice versa)
+			isBVLemma := false
+			for _, h := range lm.Hints {
+				if h == "bv" {
+					isBVLemma = true
+				}
+			}
+			if (e.mode == "bv") != isBVLemma {
+				continue
+			}
 			lctx := &EvalCtx{st: st, old: st, binds: map[string]Val{}, cf: cf, pkg: entryCtx.pkg, noLocals: true}
 			if pp := P.Pkgs[cf.Pkg]; pp != nil && pp.Types != nil {
 				lctx.pkg = pp.Types
